@@ -313,3 +313,10 @@ Ltac raises_deep side :=
     | lazymatch goal with
       | |- raises _ ?m => let h := head_of m in unfold h
       end ].
+
+Lemma hoare_mfor_Forall A (P : A -> Prop) (J X : State -> Prop) (l : list A) (f : A -> M unit) :
+  Forall P l -> (forall x, P x -> hoare J (f x) (fun _ => J) X) -> hoare J (mfor l f) (fun _ => J) X.
+Proof.
+  intros Hl H; induction Hl as [|x l Hx Hl IH]; cbn [mfor]; [apply hoare_ret; auto|].
+  eapply hoare_bind; [apply H; exact Hx | intros ?; exact IH].
+Qed.
